@@ -45,7 +45,7 @@ Proof.
   - eauto.
 Qed.
 
-Lemma in_mid_nodup (l : list msg) a b :
+Lemma in_mid_nodup (l : list pmsg) a b :
   NoDup (map mid l) -> In a l -> In b l -> mid a = mid b -> a = b.
 Proof.
   induction l as [|x l IH]; cbn; [tauto|].
@@ -73,10 +73,10 @@ Proof.
 Qed.
 
 (* ---------- the invariant ---------- *)
-Definition active (p : pc) : Prop :=
+Definition active (p : xpc) : Prop :=
   match p with PAdded | PWaiting | PLeaving _ => True | _ => False end.
 
-Definition pc_result (p : pc) : option result :=
+Definition pc_result (p : xpc) : option presult :=
   match p with PLeaving r | PEol r | PReturned r => Some r | _ => None end.
 
 (* newest first: the newest id is next-1, each older one is one less, the oldest is q0 *)
@@ -86,7 +86,7 @@ Fixpoint alog_ok (q0 next : N) (l : list (N * N)) : Prop :=
   | (_, w) :: r => next = w + 1 /\ alog_ok q0 w r
   end.
 
-Definition thread_ok (s : state) (t : N) (th : thread) : Prop :=
+Definition thread_ok (s : pstate) (t : N) (th : pthread) : Prop :=
   t < nthreads s /\
   (forall w, twid th = Some w -> In (t, w) (alog s)) /\
   (tpc th = PStart -> twid th = None) /\
@@ -94,18 +94,18 @@ Definition thread_ok (s : state) (t : N) (th : thread) : Prop :=
   (forall r, pc_result (tpc th) = Some (RMsg r) ->
      exists w, twid th = Some w /\ In (with_id r w) (emitted s) /\ mhid r = cid th).
 
-Definition rl_ok (s : state) (r : rloop) : Prop :=
+Definition rl_ok (s : pstate) (r : rloop) : Prop :=
   match r with
   | RIdle => True
   | RHold m => In m (emitted s)
   | RSend m t => In m (emitted s) /\ exists th, tget s t = Some th /\ twid th = Some (mhid m)
   end.
 
-Definition queue_ok (s : state) (q : list (N * N)) : Prop :=
+Definition queue_ok (s : pstate) (q : list (N * N)) : Prop :=
   forall w t, alookup w q = Some t ->
     exists th, tget s t = Some th /\ twid th = Some w /\ active (tpc th).
 
-Record Inv (q0 : N) (s : state) : Prop := {
+Record Inv (q0 : N) (s : pstate) : Prop := {
   inv_next : nextQid s <= 65536;
   inv_alog : alog_ok q0 (nextQid s) (alog s);
   inv_threads : forall t th, tget s t = Some th -> thread_ok s t th;
@@ -154,7 +154,7 @@ Proof.
 Qed.
 
 (* ---------- generic preservation lemmas ---------- *)
-Lemma inv_init tcp q0 : q0 <= 65536 -> Inv q0 (init tcp q0).
+Lemma inv_init tcp q0 : q0 <= 65536 -> Inv q0 (pinit tcp q0).
 Proof.
   intros H. constructor; cbn; auto; try tauto; try discriminate.
   constructor.
@@ -211,14 +211,14 @@ Ltac usek4 K4 :=
   try (match goal with H : tchan _ = Some _ |- _ => destruct (K4 _ H); assumption end).
 
 (* ---------- every step preserves the invariant ---------- *)
-Lemma step_inv q0 s l s' : Inv q0 s -> step s l = Some s' -> Inv q0 s'.
+Lemma step_inv q0 s l s' : Inv q0 s -> pstep s l = Some s' -> Inv q0 s'.
 Proof.
-  intros I. destruct l; cbn [step].
+  intros I. destruct l; cbn [pstep].
   - (* LSpawn *)
     intros H. inversion H; subst; clear H.
     assert (Hold : forall t th, tget s t = Some th ->
               tget (set_nthreads (nthreads s + 1)
-                     (set_threads ((nthreads s, mkThread c None PStart None false) :: threads s) s)) t = Some th).
+                     (set_threads ((nthreads s, mkPthread c None PStart None false) :: threads s) s)) t = Some th).
     { intros t th G. pose proof (inv_threads _ _ I _ _ G) as (Hlt & _).
       unfold tget. cbn. destruct (t =? nthreads s) eqn:E; auto. apply N.eqb_eq in E. lia. }
     destruct I as [A B C D E F Gm H].
@@ -405,11 +405,11 @@ Lemma run_inv q0 ls s s' : Inv q0 s -> run ls s = Some s' -> Inv q0 s'.
 Proof.
   revert s. induction ls as [|l ls IH]; cbn; intros s I H.
   - inversion H; subst; auto.
-  - destruct (step s l) eqn:E; [|discriminate]. eapply IH; [|exact H]. eapply step_inv; eauto.
+  - destruct (pstep s l) eqn:E; [|discriminate]. eapply IH; [|exact H]. eapply step_inv; eauto.
 Qed.
 
-Definition reachable (tcp : bool) (q0 : N) (s : state) : Prop :=
-  exists ls, run ls (init tcp q0) = Some s.
+Definition reachable (tcp : bool) (q0 : N) (s : pstate) : Prop :=
+  exists ls, run ls (pinit tcp q0) = Some s.
 
 Lemma reachable_inv tcp q0 s : q0 <= 65536 -> reachable tcp q0 s -> Inv q0 s.
 Proof. intros H [ls R]. eapply run_inv; [apply inv_init; exact H|exact R]. Qed.
@@ -418,7 +418,7 @@ Lemma run_app ls1 ls2 s s1 s2 : run ls1 s = Some s1 -> run ls2 s1 = Some s2 -> r
 Proof.
   revert s. induction ls1 as [|l ls1 IH]; cbn; intros s H1 H2.
   - inversion H1; subst; auto.
-  - destruct (step s l); [|discriminate]. eauto.
+  - destruct (pstep s l); [|discriminate]. eauto.
 Qed.
 
 Lemma reachable_run tcp q0 s ls s' : reachable tcp q0 s -> run ls s = Some s' -> reachable tcp q0 s'.
@@ -431,7 +431,7 @@ Fixpoint nseq (a : N) (n : nat) : list N :=
   match n with O => [] | S k => a :: nseq (a + 1) k end.
 
 (* wire ids in the order they were assigned *)
-Definition assigned_ids (s : state) : list N := rev (map snd (alog s)).
+Definition assigned_ids (s : pstate) : list N := rev (map snd (alog s)).
 
 Lemma nseq_snoc a n : nseq a n ++ [a + N.of_nat n] = nseq a (S n).
 Proof.
@@ -508,7 +508,7 @@ Theorem add_exhausted tcp q0 s t th :
   q0 <= 65536 -> reachable tcp q0 s -> nextQid s = 65536 ->
   tget s t = Some th -> tpc th = PStart ->
   status_available s = false /\
-  exists s' th', step s (LAdd t) = Some s' /\
+  exists s' th', pstep s (LAdd t) = Some s' /\
     tget s' t = Some th' /\ tpc th' = PReturned RErrEoL /\ twid th' = None /\
     nextQid s' = 65536 /\ alog s' = alog s /\ queue s' = queue s.
 Proof.
@@ -516,7 +516,7 @@ Proof.
   destruct (inv_threads _ _ I _ _ G) as (_ & _ & K3 & _).
   split.
   - unfold status_available. rewrite Hn. apply N.leb_gt. lia.
-  - cbn [step]. rewrite G, P. rewrite Hn. cbn [N.ltb N.compare Pos.compare Pos.compare_cont].
+  - cbn [pstep]. rewrite G, P. rewrite Hn. cbn [N.ltb N.compare Pos.compare Pos.compare_cont].
     replace (65535 <? 65536) with true by reflexivity.
     eexists. eexists. split; [reflexivity|].
     rewrite tget_tput_same.
@@ -529,19 +529,19 @@ Qed.
 Theorem retire_when_drained s t th r w :
   nextQid s = 65536 -> tget s t = Some th -> tpc th = PLeaving r -> twid th = Some w ->
   queue s = [(w, t)] ->
-  exists s1 s2, step s (LDelete t) = Some s1 /\ step s1 (LEolClose t) = Some s2 /\
+  exists s1 s2, pstep s (LDelete t) = Some s1 /\ pstep s1 (LEolClose t) = Some s2 /\
     closed s2 = true /\ queue s2 = [] /\ status_available s2 = false /\
     exists th2, tget s2 t = Some th2 /\ tpc th2 = PReturned r.
 Proof.
   intros Hn G P W Q.
   set (s1 := tput t (th_pc (PEol r) th) (set_queue [] s)).
-  assert (S1 : step s (LDelete t) = Some s1).
-  { cbn [step]. rewrite G, P, W, Q, Hn. cbn [aremove]. rewrite N.eqb_refl. reflexivity. }
+  assert (S1 : pstep s (LDelete t) = Some s1).
+  { cbn [pstep]. rewrite G, P, W, Q, Hn. cbn [aremove]. rewrite N.eqb_refl. reflexivity. }
   assert (G1 : tget s1 t = Some (th_pc (PEol r) th)).
   { unfold s1. rewrite tget_tput_same. change (tget (set_queue [] s) t) with (tget s t). rewrite G. reflexivity. }
   set (s2 := tput t (th_pc (PReturned r) (th_pc (PEol r) th)) (set_closed true s1)).
-  assert (S2 : step s1 (LEolClose t) = Some s2).
-  { cbn [step]. rewrite G1. reflexivity. }
+  assert (S2 : pstep s1 (LEolClose t) = Some s2).
+  { cbn [pstep]. rewrite G1. reflexivity. }
   exists s1, s2. repeat split; auto.
   - unfold status_available. cbn. rewrite Hn. apply N.leb_gt. lia.
   - eexists. split.
@@ -600,13 +600,13 @@ Qed.
 (* C05_late_reply                                                                         *)
 (* ====================================================================================== *)
 (* Once exchange t has chosen its outcome ... *)
-Definition decided (th : thread) : Prop := pc_result (tpc th) <> None.
+Definition decided (th : pthread) : Prop := pc_result (tpc th) <> None.
 (* ... and its deferred deleteQueueC has run *)
-Definition left_queue (th : thread) : Prop :=
+Definition left_queue (th : pthread) : Prop :=
   match tpc th with PEol _ | PReturned _ => True | _ => False end.
 
 (* what can never be undone by later steps *)
-Definition ext (s s' : state) : Prop :=
+Definition ext (s s' : pstate) : Prop :=
   incl (emitted s) (emitted s') /\ nemit s <= nemit s' /\
   forall t th, tget s t = Some th ->
     exists th', tget s' t = Some th' /\ cid th' = cid th /\
@@ -650,9 +650,9 @@ Qed.
 Ltac exttac P :=
   eapply ext_tput; eauto; unfold left_queue; try rewrite P; cbn; try discriminate; try tauto.
 
-Lemma step_ext q0 s l s' : Inv q0 s -> step s l = Some s' -> ext s s'.
+Lemma step_ext q0 s l s' : Inv q0 s -> pstep s l = Some s' -> ext s s'.
 Proof.
-  intros I. destruct l; cbn [step].
+  intros I. destruct l; cbn [pstep].
   - intros H; inversion H; subst; clear H. repeat split; cbn; auto using incl_refl; try lia.
     intros t th G. exists th. repeat split; auto.
     destruct (inv_threads _ _ I _ _ G) as (K1 & _).
@@ -727,7 +727,7 @@ Lemma run_ext q0 ls s s' : Inv q0 s -> run ls s = Some s' -> ext s s'.
 Proof.
   revert s. induction ls as [|l ls IH]; cbn; intros s I H.
   - inversion H; subst. apply ext_refl.
-  - destruct (step s l) as [s1|] eqn:E; [|discriminate].
+  - destruct (pstep s l) as [s1|] eqn:E; [|discriminate].
     eapply ext_trans; [eapply step_ext; eauto|]. eapply IH; eauto. eapply step_inv; eauto.
 Qed.
 
@@ -781,19 +781,19 @@ Qed.
 (* ====================================================================================== *)
 (* big_refines_small                                                                      *)
 (* ====================================================================================== *)
-Definition sched (s s' : state) : Prop := exists ls, run ls s = Some s'.
+Definition sched (s s' : pstate) : Prop := exists ls, run ls s = Some s'.
 
 Lemma sched_refl s : sched s s. Proof. exists []. reflexivity. Qed.
 Lemma sched_trans a b c : sched a b -> sched b c -> sched a c.
 Proof. intros [l1 H1] [l2 H2]. exists (l1 ++ l2). eapply run_app; eauto. Qed.
 
-Lemma sched_exec s l : sched s (exec s l).
+Lemma sched_exec s l : sched s (pexec s l).
 Proof.
-  unfold exec. destruct (step s l) as [s'|] eqn:E; [|apply sched_refl].
+  unfold pexec. destruct (pstep s l) as [s'|] eqn:E; [|apply sched_refl].
   exists [l]. cbn. rewrite E. reflexivity.
 Qed.
 
-Lemma sched_fold {A} (f : state -> A -> state) (l : list A) :
+Lemma sched_fold {A} (f : pstate -> A -> pstate) (l : list A) :
   (forall s a, sched s (f s a)) -> forall s, sched s (fold_left f l s).
 Proof.
   intros Hf. induction l as [|a l IH]; cbn; intros s; [apply sched_refl|].
@@ -809,9 +809,9 @@ Proof. unfold settle_all. apply sched_fold. intros. apply sched_settle. Qed.
 Lemma sched_do_emit i tag s : sched s (do_emit i tag s).
 Proof.
   unfold do_emit.
-  set (s1 := exec (exec s (LRecv i tag)) LLookup).
+  set (s1 := pexec (pexec s (LRecv i tag)) LLookup).
   assert (H1 : sched s s1) by (eapply sched_trans; apply sched_exec).
-  assert (H2 : sched s (exec s1 LSend)) by (eapply sched_trans; [exact H1|apply sched_exec]).
+  assert (H2 : sched s (pexec s1 LSend)) by (eapply sched_trans; [exact H1|apply sched_exec]).
   destruct (rl s1); auto. eapply sched_trans; [exact H2|apply sched_settle].
 Qed.
 
